@@ -73,7 +73,7 @@ REQUIRED = dict(
              'query:interior', 'query:exact-Tmin', 'query:exact-Tmax', 'query:exact-Pmin', 'query:exact-Pmax',
              'magnitude:tiny', 'magnitude:mid', 'magnitude:large', 'magnitude:steep', 'magnitude:ones',
              'exp-mode-zero-in-table', 'linear-mode-zero-in-table', 'live-switch:linear->exp', 'live-switch:exp->linear',
-             'live-switch:exp->exp', 'live-switch:linear->linear', 'table:single-P-node', 'table:single-T-node', 'wngrid:reused-work-array'])
+             'live-switch:exp->exp', 'live-switch:linear->linear', 'table:single-P-node', 'table:single-T-node', 'wngrid:reused-work-array', 'route:hdf5'])
 EPS = float(np.finfo(float).eps)
 TOOL_ID = 3
 
@@ -639,13 +639,35 @@ def wl_files(ctx, rng):
     wn = world.wn_grid(rng, nwn)
     mode = ['linear', 'exp'][rng.integers(0, 2)]
     d = world.scratch_dir(ctx, 'c04-%d' % ctx.cases)
-    if rng.random() < 0.5:
+    r_ = rng.random()
+    if r_ < 0.3:
         x, mag = gen_values(rng, (len(P), len(T), nwn))
         path = os.path.join(d, 'H2O.pickle')
         world.write_pickle_xsec(path, wn, T, P, x)
         op = PickleOpacity(path, interpolation_mode=mode)
         ctx.observe('route:pickle-xsec')
         layout = 'xsec'
+    elif r_ < 0.65:
+        # the HDF5 containers: the pressure axis is stored in the unit the file declares (any unit string the package's
+        # converter takes); what the loader hands out is pascal
+        from vmon import lib_c14
+        from taurex.opacity.hdf5opacity import HDF5Opacity
+        from taurex.opacity.ktables.hdfktable import HDF5KTable
+        unit = str(rng.choice(sorted(lib_c14.PA_PER_UNIT)))
+        ctx.observe('route:hdf5', 'hdf5-pressure-unit:' + unit)
+        if rng.random() < 0.5:
+            x, mag = gen_values(rng, (len(P), len(T), nwn))
+            path = os.path.join(d, 'H2O.h5')
+            lib_c14.write_xsec_hdf5(path, 'H2O', wn, T, P, x, unit)
+            op = HDF5Opacity(path, interpolation_mode=mode, in_memory=True)      # as the cache builds it
+            layout = 'xsec'
+        else:
+            ng = int(rng.integers(1, 5))
+            x, mag = gen_values(rng, (len(P), len(T), nwn, ng))
+            path = os.path.join(d, 'H2O_R100.h5')
+            lib_c14.write_ktable_hdf5(path, wn, T, P, x, np.full(ng, 1.0 / ng), unit)
+            op = HDF5KTable(path, interpolation_mode=mode)
+            layout = 'ktable'
     else:
         ng = int(rng.integers(1, 5))
         x, mag = gen_values(rng, (len(P), len(T), nwn, ng))
@@ -659,6 +681,8 @@ def wl_files(ctx, rng):
     ctx.feature(layout=layout, shape=list(x.shape), mode=mode, magnitude=mag, route='pickle')
     ctx.check('loader-keeps-table', np.array_equal(np.asarray(op.xsecGrid), x) and
               np.array_equal(np.asarray(op.temperatureGrid), T), path=os.path.basename(path))
+    # ... and the pressure axis in pascal, whatever unit the container stores it in
+    ctx.close('loader-keeps-table', op.pressureGrid, P, 8 * EPS, axis='pressure [Pa]', path=os.path.basename(path))
     # the loaded pressure grid (bar*1e5) is what the queries and the oracle use
     n = run_queries(ctx, rng, op, gen_queries(rng, np.asarray(op.temperatureGrid, dtype=float),
                                               np.asarray(op.pressureGrid, dtype=float), budget=50), layout, mode)
